@@ -480,9 +480,133 @@ def run_history(acc, n, hist, case):
     acc.nontriv(("large", core.h64(core.jdump(case))))
 
 
+# ---- Stabilizer / MixedStabilizer wrappers ---------------------------------------------------------
+
+def wrapper_menu(n):
+    ops = []
+    for q in range(n):
+        for m in ("apply_hadamard", "apply_phase", "apply_phase_dagger", "apply_sigmax", "apply_sigmay", "apply_sigmaz"):
+            ops.append((m, q))
+        for s in SETTINGS:
+            ops += [("apply_measurement", q, s), ("apply_x_measurement", q, s), ("reset_qubit", q, s), ("remove_qubit", q, s), ("trace_out_qubits", [q], s)]
+        ops.append(("partial_trace", [q]))
+    for a, b in itertools.permutations(range(n), 2):
+        ops += [("apply_cnot", a, b), ("apply_cz", a, b)]
+    ops += [("apply_circuit", False), ("apply_circuit", True)]
+    return ops
+
+
+CIRC = [("H", 0), ("CNOT", 0, 1), ("P", 1), ("X", 0)]
+
+
+def wrapper_expected(grp, op, outcome):
+    m = op[0]
+    g = grp.copy()
+    simple = {"apply_hadamard": "H", "apply_phase": "P", "apply_phase_dagger": "P_dag", "apply_sigmax": "X", "apply_sigmay": "Y", "apply_sigmaz": "Z"}
+    if m in simple:
+        return g.apply(simple[m], op[1])
+    if m == "apply_cnot":
+        return g.apply("CNOT", op[1], op[2])
+    if m == "apply_cz":
+        return g.apply("CZ", op[1], op[2])
+    if m == "apply_measurement":
+        return g.measure_z(op[1], outcome)
+    if m == "apply_x_measurement":
+        return g.measure_pauli((1 << op[1], 0, 0), outcome)
+    if m == "reset_qubit":
+        return g.reset_z(op[1], outcome)
+    if m == "remove_qubit":
+        return g.measure_z(op[1], outcome).remove_product_qubit(op[1])
+    if m == "trace_out_qubits":
+        q = op[1][0]
+        return g.measure_z(q, outcome).remove_product_qubit(q)
+    if m == "partial_trace":
+        q = [x for x in range(g.n) if x not in op[1]][0]
+        return g.measure_z(q, outcome).remove_product_qubit(q)
+    if m == "apply_circuit":
+        seq = CIRC[::-1] if op[1] else CIRC
+        for gt in seq:
+            nm = gt[0]
+            if op[1] and nm == "P":
+                nm = "P_dag"
+            g.apply(nm, *gt[1:])
+        return g
+    raise ValueError(op)
+
+
+def measured_qubit(op, n):
+    m = op[0]
+    if m in ("apply_measurement", "reset_qubit", "remove_qubit"):
+        return op[1], "z"
+    if m == "apply_x_measurement":
+        return op[1], "x"
+    if m == "trace_out_qubits":
+        return op[1][0], "z"
+    if m == "partial_trace":
+        return [x for x in range(n) if x not in op[1]][0], "z"
+    return None, None
+
+
+def check_wrapper_op(acc, grp, op, kind, ch):
+    from graphiq.backends.stabilizer.state import Stabilizer, MixedStabilizer
+    n = grp.n
+    tab = gq.group_to_clifford_tableau(grp)
+    obj = Stabilizer(tab) if kind == "Stabilizer" else MixedStabilizer([(1.0, tab)])
+    case = {"state": grp.strings(), "wrapper": kind, "op": [x for x in op]}
+    site = kind + "." + op[0]
+    acc.transitions += 1
+    args = list(op[1:])
+    kwargs = {}
+    q, basis = measured_qubit(op, n)
+    setting = None
+    if q is not None and op[0] != "partial_trace":
+        setting = args.pop()
+        kwargs["measurement_determinism"] = setting
+    if op[0] == "partial_trace":
+        args = [op[1], [2] * n]
+        setting = "probabilistic"
+    if op[0] == "apply_circuit":
+        args = [list(CIRC)]
+        kwargs = {"reverse": op[1]}
+    try:
+        with Owned(ch):
+            ret = getattr(obj, op[0])(*args, **kwargs)
+    except Exception as e:
+        acc.violation("wrapper", site, "raises-" + type(e).__name__, case, "operation applied", repr(e)[:200])
+        return
+    tabs = [obj.data] if kind == "Stabilizer" else [t for p, t in obj.mixture]
+    if len(tabs) != 1:
+        acc.violation("wrapper", site, "mixture-size-changed", case, 1, len(tabs))
+        return
+    bad = gq.tableau_invariant(tabs[0])
+    if bad:
+        acc.violation("wrapper", site, "invalid-tableau: " + bad, case, "valid", bad)
+        return
+    got = gq.tableau_group(tabs[0])
+    if q is None:
+        wants = [wrapper_expected(grp, op, None)]
+    else:
+        poss = grp.z_outcomes(q) if basis == "z" else grp.pauli_outcomes((1 << q, 0, 0))
+        adm = admissible(poss, setting)
+        if op[0] in ("apply_measurement", "apply_x_measurement"):
+            out = ret[0] if isinstance(ret, list) else ret
+            if out not in adm:
+                acc.violation("wrapper", site, "outcome-not-admissible", case, adm, out)
+                return
+            adm = [int(out)]
+        wants = [wrapper_expected(grp, op, o) for o in adm]
+    if not any(w.n == got.n and got.same_state(w) for w in wants):
+        acc.violation("wrapper", site, "state-after-call-wrong", case, [w.strings() for w in wants], got.strings())
+        return
+    acc.validated += 1
+    acc.nontriv_fast(("wrapper", kind, repr(op), tuple(grp.gens)))
+
+
 def shards(tier):
-    """large-n part (the BFS part is driven by run())."""
+    """large-n part and wrapper part (the BFS part is driven by run())."""
     out = []
+    for a in range(0, 60, 6):
+        out.append({"wrappers": True, "lo": a, "hi": a + 6})
     for n in ([50] if tier == "quick" else [50, 200]):
         for name in ("ghz", "cluster", "brick"):
             L = len(base_histories(n, 2 if tier == "quick" else 3)[name])
@@ -493,6 +617,18 @@ def shards(tier):
 
 
 def run_shard(shard, tier, acc):
+    if shard.get("wrappers"):
+        from ..ref import spaces
+        st = spaces.stabilizer_states(2)
+        for i in range(shard["lo"], shard["hi"]):
+            for kind in ("Stabilizer", "MixedStabilizer"):
+                for op in wrapper_menu(2):
+                    if kind == "MixedStabilizer" and op[0] in ("apply_x_measurement", "apply_circuit"):
+                        continue
+                    for ch, _ in explore(lambda ch, op=op, kind=kind: check_wrapper_op(acc, st[i], op, kind, ch), max_exec=16):
+                        acc.evaluations += 1
+        acc.sample({"state": st[i].strings(), "wrapper": "Stabilizer", "op": ["reset_qubit", 0, 1]})
+        return
     n = shard["n"]
     base = base_histories(n, shard.get("layers", 3))[shard["base"]]
     probes = probe_ops(n, [0, 1, n // 2, n - 2, n - 1])
